@@ -42,7 +42,13 @@ func loadContracts() (*ContractSet, map[string]string, error) {
 		return nil, nil, err
 	}
 	// trusted external specs
-	tdir := filepath.Join(verifDir(), "govc", "trusted")
+	tdir := "/verif/govc/trusted"
+	if exe, err := os.Executable(); err == nil {
+		cand := filepath.Join(filepath.Dir(filepath.Dir(exe)), "govc", "trusted")
+		if _, err := os.Stat(cand); err == nil {
+			tdir = cand
+		}
+	}
 	ents, _ := os.ReadDir(tdir)
 	for _, e := range ents {
 		if !strings.HasSuffix(e.Name(), ".spec") {
@@ -269,6 +275,17 @@ func generate(p *Program, cs *ContractSet, prop string, only string) *genOutput 
 		if len(modes) == 0 {
 			modes = []string{"fp"}
 		}
+		if lm.Assumed {
+			out.trusted["assumed lemma (not proved): "+lm.Name+": "+lm.Clause.Src] = true
+			continue
+		}
+		for _, u := range lm.Uses {
+			for _, other := range cs.Lemmas {
+				if other.Name == u && other.Assumed {
+					out.trusted["assumed lemma (not proved): "+other.Name+": "+other.Clause.Src] = true
+				}
+			}
+		}
 		for _, mode := range modes {
 			ctx := newCtx(p, cs, sp.Pkg, mode)
 			g := &Gen{Ctx: ctx, key: lm.Pkg + ".lemma." + lm.Name, con: &Contract{Props: lm.Props}}
@@ -295,15 +312,52 @@ func generate(p *Program, cs *ContractSet, prop string, only string) *genOutput 
 						}
 					}
 				}
-				goal := env.eval(lm.Clause.E).S
-				name := "lemma[" + lm.Name + "]"
-				if len(modes) > 1 {
-					name += "{" + mode + "}"
+				mk := func(suffix, goal, desc string) {
+					name := "lemma[" + lm.Name + suffix + "]"
+					if len(modes) > 1 {
+						name += "{" + mode + "}"
+					}
+					o := &Obligation{Name: name, Kind: "lemma", Goal: goal, NFacts: len(g.facts), Desc: desc + lm.Clause.Src, Clause: lm.Clause, Gen: g, FuncKey: g.key, Mode: mode, Props: lm.Props}
+					o.Pos.Filename = lm.Clause.File
+					o.Pos.Line = lm.Clause.Line
+					out.obls = append(out.obls, o)
 				}
-				o := &Obligation{Name: name, Kind: "lemma", Goal: goal, NFacts: len(g.facts), Desc: "lemma: " + lm.Clause.Src, Clause: lm.Clause, Gen: g, FuncKey: g.key, Mode: mode, Props: lm.Props}
-				o.Pos.Filename = lm.Clause.File
-				o.Pos.Line = lm.Clause.Line
-				out.obls = append(out.obls, o)
+				if lm.Induct == "" {
+					mk("", env.eval(lm.Clause.E).S, "lemma: ")
+					return
+				}
+				// induction on an integer variable: base (n = 0), step (n >= 0 && P(n) ==> P(n+1)), and n < 0
+				q, ok := lm.Clause.E.(*EQuant)
+				if !ok || !q.Forall {
+					panic(specError{"induction lemma must be a forall"})
+				}
+				ienv := env.child()
+				nTerm := ""
+				for _, v := range q.Vars {
+					t := ctx.resolveType(v.Type, sp.Pkg)
+					cn := ctx.freshConst("lv."+v.Name, ctx.sortOf(t))
+					ienv.vars[v.Name] = &SV{S: cn, T: t}
+					if v.Type != "int" && v.Type != "mathint" {
+						if rf := ctx.rangeFact(cn, t); rf != "" {
+							g.facts = append(g.facts, rf)
+						}
+					}
+					if v.Name == lm.Induct {
+						nTerm = cn
+					}
+				}
+				if nTerm == "" {
+					panic(specError{"induction variable " + lm.Induct + " not quantified"})
+				}
+				at := func(term string) string {
+					e2 := ienv.child()
+					e2.vars[lm.Induct] = &SV{S: term, T: ienv.vars[lm.Induct].T}
+					return e2.eval(q.Body).S
+				}
+				mk("/base", at("0"), "lemma, induction base: ")
+				mk("/neg", implies("(< "+nTerm+" 0)", at(nTerm)), "lemma, negative case: ")
+				mk("/step", implies(and("(>= "+nTerm+" 0)", at(nTerm)), at("(+ "+nTerm+" 1)")), "lemma, induction step: ")
+				return
 			}()
 			for t := range ctx.trusted {
 				out.trusted[t] = true
@@ -335,7 +389,14 @@ func solveAll(obls []*Obligation, cfg *runConfig) []*OblResult {
 			if o.Cover && to > 5 {
 				to = 5
 			}
-			r := solve(text, to, false, cfg.allSolve && !o.Cover, o.Name)
+			light := ""
+			if !o.Cover && o.Gen != nil && o.Gen.fn != nil {
+				light = o.smtTextS(nil, true)
+				if hasQuant(light) {
+					light = "" // goal itself is quantified and could not be skolemised
+				}
+			}
+			r := solve2(text, light, to, false, cfg.allSolve && !o.Cover, o.Name)
 			res[i] = &OblResult{O: o, R: r, SMT: len(text)}
 		}()
 	}
